@@ -543,11 +543,13 @@ pub const SEED_TEXTS: &[&str] = &[
     "(g3 $1 $2 $3)",
     "(sub (var $x) (var $x))",
     "(lam $f0 (v $f0))",
+    "(f2 $3333333333 $f1073741824)",
+    "(var $1073741823)",
 ];
 
 fn text_strategy() -> BoxedStrategy<TextCase> {
     let toks = vec![
-        "(", ")", "[", "]", ":=", " ", "?x", "?b", "$a", "$1", "$f0", "$", "?", "lam", "app", "var", "let", "sum", "sum2", "f2", "v", "zero", "sub", "f", "add", "1", "22", "x", "==", ",", "\u{e9}", "\t", "$x$y", "((", "))",
+        "(", ")", "[", "]", ":=", " ", "?x", "?b", "$a", "$1", "$f0", "$4294967295", "$f1073741823", "$1073741824", "$", "?", "lam", "app", "var", "let", "sum", "sum2", "f2", "v", "zero", "sub", "f", "add", "1", "22", "x", "==", ",", "\u{e9}", "\t", "$x$y", "((", "))",
     ];
     let seeds: Vec<String> = SEED_TEXTS.iter().map(|s| s.to_string()).collect();
     let seeds2 = seeds.clone();
